@@ -995,7 +995,9 @@ impl ZonedDateTime {
                 ))?;
 
         let offset = self.tz.get_offset_nanos_for(result, provider)?;
-        let datetime = self.tz.get_iso_datetime_for(&self.instant, provider)?;
+        let datetime = self
+            .tz
+            .get_iso_datetime_for(&Instant::try_new(result)?, provider)?;
         let (sign, hour, minute) = nanoseconds_to_formattable_offset_minutes(offset)?;
         let timezone_id = self.timezone().identifier()?;
 
